@@ -46,6 +46,7 @@ def gen_worker(args):
         todo = [('%s::%s' % (crate_name, m['module']), m) for m in modules]
     for prefix, sidecar in todo:
         label = sidecar['tag'] if sidecar else prefix
+        tm = time.time()
         try:
             mod = gencheck.check_module(crate, prefix, sidecar, prim_summary, label=label, nested=prefixes)
         except Exception as e:  # analyser bug: fail closed, attributable
@@ -58,7 +59,7 @@ def gen_worker(args):
         res['stats'].update(mod.stats)
         res['modules'].append({'label': label, 'prefix': prefix, 'variants': len(mod.records),
                                'functions': mod.stats.get('functions', 0), 'paths': mod.stats.get('paths', 0),
-                               'accesses': len(mod.accesses), 'max_size': mod.max_size,
+                               'accesses': len(mod.accesses), 'max_size': mod.max_size, 'secs': round(time.time() - tm, 2),
                                'fragments': [k for k in ('clone', 'serde') if sidecar and sidecar.get(k)]})
         if len(res['samples']) < want_samples:
             res['samples'].append({'module': label, 'MAX_SIZE': mod.max_size, 'repr_align': getattr(mod, 'repr_align', None),
@@ -142,8 +143,9 @@ class Orchestrator:
                     json.dump(res, f)
                 os.rename(tmp, rfile)
                 # raw facts are large; keep only results and logs
-                for d in glob.glob(os.path.join(fdir, 'facts_*')):
-                    shutil.rmtree(d, ignore_errors=True)
+                if not os.environ.get('VERIF_KEEP_FACTS'):
+                    for d in glob.glob(os.path.join(fdir, 'facts_*')):
+                        shutil.rmtree(d, ignore_errors=True)
             with open(rfile) as f:
                 res = json.load(f)
             res['_dir'] = fdir
@@ -244,9 +246,45 @@ class Orchestrator:
                 index[i] = d
             else:
                 res['errors'].append('[GEN] corpus shard %d produced no index' % i)
+        # ---- adaptive corpus: integer constants the generator / strategies / runtime compare against
+        thresholds = []
+        try:
+            import src_engine
+            thresholds = src_engine.thresholds(f_on, nonce)
+            if os.environ.get('VERIF_DEBUG_THRESHOLDS'):  # machinery testing only; never set by registered commands
+                thresholds = sorted(set(thresholds) | {int(x) for x in os.environ['VERIF_DEBUG_THRESHOLDS'].split(',')})
+        except Exception as e:
+            res['errors'].append('[GEN] threshold scan failed: %s' % e)
+        if thresholds:
+            name = 'corpus_adaptive'
+            env = dict(base_env, CORPUS_SHARD='0/1', CORPUS_INDEX_DIR=idx_dir, MIRDUMP_CRATES='corpus', CORPUS_KIND='adaptive',
+                       CORPUS_THRESHOLDS=','.join(str(x) for x in thresholds))
+            job = (name, [run, os.path.join(self.here, 'corpus'), os.path.join(fdir, 'facts_corpus_adaptive'), os.path.join(self.work, 'target-corpus-0')], env)
+            rc.update(self.run_jobs([job], logdir))
+            excluded = []
+            tries = 0
+            while rc[name] != 0 and tries < 3:
+                tries += 1
+                log = open(os.path.join(logdir, name + '.log')).read()
+                bad = sorted(set(re.findall(r'/out/(m\d{4})\.rs', log)) - set(excluded))
+                if not bad:
+                    res['errors'].append('[GEN] adaptive corpus failed to build; see %s' % os.path.join(logdir, name + '.log'))
+                    break
+                errs = defaultdict(list)
+                for m in re.finditer(r'(error(?:\[E\d+\])?: [^\n]*)\n\s*--> [^\n]*/out/(m\d{4})\.rs:(\d+)', log):
+                    errs[m.group(2)].append(m.group(1))
+                for b in bad:
+                    compile_findings.append(('adaptive', b, errs.get(b, ['(see log)'])[:3]))
+                excluded += bad
+                env2 = dict(env, CORPUS_EXCLUDE=','.join(excluded))
+                rc.update(self.run_jobs([(name, job[1], env2)], logdir))
+            idxf = os.path.join(idx_dir, 'index-adaptive-0.json')
+            if os.path.exists(idxf):
+                index['adaptive'] = json.load(open(idxf))
+        res['thresholds'] = thresholds
         # ---- builder / generator panics and compile failures (C13 observations)
         n_mod = 0
-        for i, d in sorted(index.items()):
+        for i, d in sorted(index.items(), key=lambda kv: str(kv[0])):
             for m in d['modules']:
                 n_mod += 1
                 for k, what in (('builder_panic', 'the builder panicked'), ('max_size_panic', 'max_size() panicked'),
@@ -283,14 +321,14 @@ class Orchestrator:
         # ---- GEN over corpus shards and the repository's example crates (pool)
         t2 = time.time()
         tasks = []
-        for i, d in sorted(index.items()):
+        for i, d in sorted(index.items(), key=lambda kv: str(kv[0])):
             mods = [m for m in d['modules'] if 'file' in m and m['module'] not in (d.get('excluded') or [])]
             excl = set()
             for (si, b, _) in compile_findings:
                 if si == i:
                     excl.add(b)
             mods = [m for m in mods if m['module'] not in excl]
-            tasks.append((os.path.join(fdir, 'facts_corpus_%d' % i), 'corpus', mods, prim_summary, 2))
+            tasks.append((os.path.join(fdir, 'facts_corpus_%s' % i), 'corpus', mods, prim_summary, 2))
         for cn in ('fibonacci', 'machin'):
             tasks.append((f_on, cn, None, prim_summary, 2))
         gen = {'modules': [], 'stats': Counter(), 'samples': [], 'corpus_modules': n_mod}
